@@ -10,7 +10,6 @@ for (tree, spelling) pairs of the DOCS generator (runtime/docs.py).  The expecte
 directly from the tree (runtime/docs_html.py) and never computed with mistletoe.
 """
 import hashlib
-import itertools
 
 from runtime.common import use_repo, pool_map
 from runtime import docs
